@@ -33,6 +33,11 @@ func (mb *mbox) newMessage() (*Message, error) {
 	}
 	date := time.Now()
 	id := generateID(date)
+	// The ID counter starts over with every process, so after a quick restart the
+	// mailbox may already hold a message with this ID.
+	for mb.hasID(id) {
+		id = generateID(date)
+	}
 	return &Message{mailbox: mb, Fid: id, Fdate: date}, nil
 }
 
